@@ -1369,6 +1369,10 @@ class Process(StateMachine, persistence.Savable, metaclass=ProcessStateMachineMe
                 # The process was terminated underneath the step (e.g. a scheduled callback failed it): nothing to do
                 return
 
+            if next_state is not None and next_state.LABEL == process_states.ProcessState.EXCEPTED:
+                # The step failed (``Running.execute`` hands back the excepted state): this overrides a pending pause or kill
+                self._set_interrupt_action(None)
+
             if self._future.cancelled() and not self._killing:
                 # The future was cancelled while the step was in flight and the kill it triggers has not been
                 # scheduled yet: honour it now rather than transitioning with a cancelled future
